@@ -226,6 +226,10 @@ func genC20Model(t *rapid.T) (string, map[string]bool, *c20Gen) {
 			if g.p(30, "params") {
 				params = " (p <: " + g.field(a) + ")"
 			}
+			if g.p(20, "ephidden") {
+				g.cl["hidden_endpoint"] = true
+				params += " [~hidden]"
+			}
 			if g.p(12, "epshort") {
 				fmt.Fprintf(&sb, "    %s%s: ...\n", en, params)
 				continue
@@ -265,13 +269,13 @@ func genC20Model(t *rapid.T) (string, map[string]bool, *c20Gen) {
 	}
 	for v := 0; v < 2; v++ {
 		attrs := ""
-		switch rapid.IntRange(0, 3).Draw(t, "intsattrs") {
+		switch rapid.IntRange(0, 4).Draw(t, "intsattrs") {
 		case 1:
 			attrs = fmt.Sprintf(" [exclude=[\"%s\"]]", pick(t, g.apps, "excl"))
 		case 2:
 			g.cl["passthrough"] = true
 			attrs = fmt.Sprintf(" [passthrough=[\"%s\"]]", pick(t, g.apps, "pass"))
-		case 3:
+		case 3, 4:
 			g.cl["passthrough"] = true
 			attrs = fmt.Sprintf(" [passthrough=[\"%s\", \"%s\"]]", pick(t, g.apps, "pass1"), pick(t, g.apps, "pass2"))
 		}
@@ -339,12 +343,18 @@ var c20Cmds = []c20Cmd{
 		}
 		return append(args, "m.sysl")
 	}},
-	{"sd-project", func(g *c20Gen, t *rapid.T) []string { return []string{"sd", "-a", "Proj", "-o", "%(epname).puml", "m.sysl"} }},
-	{"ints", func(g *c20Gen, t *rapid.T) []string { return []string{"ints", "-j", "Proj", "-o", "%(epname).puml", "m.sysl"} }},
+	{"sd-project", func(g *c20Gen, t *rapid.T) []string {
+		return []string{"sd", "-a", "Proj", "-o", "%(epname).puml", "m.sysl"}
+	}},
+	{"ints", func(g *c20Gen, t *rapid.T) []string {
+		return []string{"ints", "-j", "Proj", "-o", "%(epname).puml", "m.sysl"}
+	}},
 	{"ints-clustered", func(g *c20Gen, t *rapid.T) []string {
 		return []string{"ints", "-j", "Proj", "--clustered", "-o", "%(epname).puml", "m.sysl"}
 	}},
-	{"ints-epa", func(g *c20Gen, t *rapid.T) []string { return []string{"ints", "-j", "Proj", "--epa", "-o", "%(epname).puml", "m.sysl"} }},
+	{"ints-epa", func(g *c20Gen, t *rapid.T) []string {
+		return []string{"ints", "-j", "Proj", "--epa", "-o", "%(epname).puml", "m.sysl"}
+	}},
 	{"ints-exclude", func(g *c20Gen, t *rapid.T) []string {
 		return []string{"ints", "-j", "Proj", "-e", pick(t, g.apps, "cliexcl"), "-o", "%(epname).puml", "m.sysl"}
 	}},
@@ -505,7 +515,7 @@ func checkC20(x *X, c c20Case) error {
 }
 
 var c20Prop = Define("C20", "cli",
-	"untidy-but-valid models (dangling call targets: app or endpoint; dangling, one-segment, cross-app, self- and mutually recursive type references; empty apps and types; call cycles; tables with foreign keys incl. self/cyclic/dangling; passthrough/exclude project views; project lists naming a missing app) x one of 21 command/option sets (pb x4, validate, sd x2 with blackbox/groupby, ints x4, datamodel x2, export x6, generate-db-scripts, -delta incl. a model against itself) run with the sysl binary built from the working tree; oracle: terminates, no 'panic:'/'fatal error:'/'goroutine' on stderr, non-zero exit carries a message. A crash is keyed by '<command>:<kind>@<first frame in the repository>'. Non-trivial: the model contains at least one untidy element; distinct by (command line, model).",
+	"untidy-but-valid models (dangling call targets: app or endpoint; dangling, one-segment, cross-app, self- and mutually recursive type references; empty apps and types; call cycles incl. among ~hidden endpoints of pass-through applications; tables with foreign keys incl. self/cyclic/dangling; passthrough/exclude project views; project lists naming a missing app) x one of 21 command/option sets (pb x4, validate, sd x2 with blackbox/groupby, ints x4, datamodel x2, export x6, generate-db-scripts, -delta incl. a model against itself) run with the sysl binary built from the working tree; oracle: terminates, no 'panic:'/'fatal error:'/'goroutine' on stderr, non-zero exit carries a message. A crash is keyed by '<command>:<kind>@<first frame in the repository>'. Non-trivial: the model contains at least one untidy element; distinct by (command line, model).",
 	genC20, checkC20)
 
 func TestC20(t *testing.T) {
